@@ -229,6 +229,54 @@ pub fn run(ctx: &mut Ctx) {
             judge_history(ctx, &rd, &sp, &c, "unwrap-layouts", full);
         }
     }
+    // very deep nesting of unwrap-blocks and default elements expiring at different steps
+    if shard < 4 {
+        let k = [40usize, 127, 140, 400][shard as usize];
+        for unwrap in [true, false] {
+            let sp = short_sp();
+            let mut inner = vec![text("\n  core();\n")];
+            for d in 0..k {
+                let lvl = 1 + (d % 4) as u8;
+                inner = if unwrap {
+                    let mut ch = vec![text("\nif (c) {")];
+                    ch.extend(inner);
+                    ch.push(text("}\n"));
+                    vec![text("\n"), elem(Kind::Mk, lvl, false, true, 2000 + d as u64, ch), text("\n")]
+                } else {
+                    vec![text("\n"), elem(Kind::Tl, if d == 0 { 1 } else { 5 }, false, false, 3000 + d as u64, inner), text("\n")]
+                };
+            }
+            let rd = render(&inner, &sp);
+            match eligible(&rd, &sp) {
+                Ok(full) => {
+                    for c in [vec![1u8, 2, 3, 4], vec![4], vec![2, 4], vec![4, 4]] {
+                        judge_history(ctx, &rd, &sp, &c, "deep-nest", full);
+                    }
+                }
+                Err(why) => ctx.skip(why),
+            }
+        }
+    }
+    // big documents (many removals per run, deep nesting, long lines)
+    let total_big: u64 = if quick { 160 } else { 4_000 };
+    for i in (shard..total_big).step_by(n as usize) {
+        if ctx.past(0.9) {
+            break;
+        }
+        let mut r = Rng::for_case(seed, 103, i);
+        let sp = default_sp();
+        let mut d = gen_big_doc(&mut r, &sp, i % 2 == 0, true);
+        spread_levels(&mut d, &mut r);
+        let rd = render(&d, &sp);
+        match eligible(&rd, &sp) {
+            Ok(full) => {
+                for c in [vec![1u8, 2, 3, 4], vec![2, 3], vec![1, 4], vec![3, 3, 4]] {
+                    judge_history(ctx, &rd, &sp, &c, "ast-big", full);
+                }
+            }
+            Err(why) => ctx.skip(why),
+        }
+    }
     // bounded-exhaustive line sequences: default elements ready from step 1, unwrap-blocks from step 2
     super::docs::lineseq_stage(ctx, if quick { 6 } else { 8 }, 0.99, true, |ctx, rd, sp| {
         match eligible(rd, sp) {
